@@ -68,10 +68,21 @@ Proof. vm_compute. reflexivity. Qed.
 
 (** the sticky fields are only configured (with_options / with_recursion_limit) or
     saved-modified-restored with no early exit in between *)
+(** reviewed exception: inside parse_projection's clean outer bracket of options.trailing_commas the
+    item closure puts the saved value back for the item and the projection value back after it
+    (one block-local "write without restore"); accepted only next to exactly one clean bracket of
+    the same function and field and no other unrestored write there *)
+Definition same_site (fn field : string) (s : string * string * string * bool) : bool :=
+  let '(f, fl, _, _) := s in String.eqb f fn && String.eqb fl field.
+Definition item_closure_ok (fn field : string) : bool :=
+  String.eqb fn "parser/mod:parse_projection" && String.eqb field "options.trailing_commas" &&
+  Nat.eqb (List.length (filter (fun s => same_site fn field s && (let '(_, _, sh, e) := s in String.eqb sh "save-modify-restore" && negb e)) sticky_shapes)) 1 &&
+  Nat.eqb (List.length (filter (same_site fn field) sticky_shapes)) 2.
 Lemma C14_shapes_ok :
   forallb (fun s => let '(fn, field, shape, early) := s in
              (String.eqb shape "save-modify-restore" && negb early)
-             || (String.eqb shape "write-without-restore" && mem fn ["parser/mod:with_options"; "parser/mod:with_recursion_limit"]))
+             || (String.eqb shape "write-without-restore" && mem fn ["parser/mod:with_options"; "parser/mod:with_recursion_limit"])
+             || (String.eqb shape "write-without-restore" && item_closure_ok fn field))
           sticky_shapes = true.
 Proof. vm_compute. reflexivity. Qed.
 
